@@ -829,7 +829,7 @@ def run_specs_(ctx, all_specs):
             allc |= c
         if allc & 4:
             ctx.obligation("harness:c07-final-request(case %d)" % idx, False, repr(lst))
-        if allc & 8:
+        if any(c & 8 and not c & 1 for _, c in lst):   # the files are as modelled, what the accessor returned is not
             ctx.fail("c07-trees-accessor-differs-from-trees-file",
                      "BinnedTrees(patch).trees read in the measuring process (a peek step) is not the content of trees.pkl "
                      "the history left on disk (is-a-tuple / records per tree differ), (catalog, code): %s; steps and "
